@@ -15,6 +15,7 @@ import (
 	"sort"
 	"strconv"
 	"strings"
+	"sync"
 	"time"
 
 	"verif/internal/load"
@@ -112,6 +113,9 @@ func cmdCheck(args []string) (code int) {
 		out.Extra["build_tagged_files"] = tagged
 	}
 	fmt.Printf("jsv: property %s tier %s: %d packages, %d files of %s\n", *prop, *tier, len(c.Pkgs), nfiles, *repo)
+	c.BuildSSA()
+	var wg sync.WaitGroup
+	sem := make(chan struct{}, 8)
 	for _, id := range p.Rules {
 		rule := rules.Get(id)
 		if rule == nil {
@@ -122,7 +126,12 @@ func cmdCheck(args []string) (code int) {
 			continue
 		}
 		rr := &report.RuleResult{Rule: id, Doc: rule.Doc, Min: rule.Min}
-		func() {
+		out.Results = append(out.Results, rr)
+		wg.Add(1)
+		go func() {
+			defer wg.Done()
+			sem <- struct{}{}
+			defer func() { <-sem }()
 			defer func() {
 				if e := recover(); e != nil {
 					rr.Unk("engine-panic|"+id, "", fmt.Sprintf("rule panicked: %v\n%s", e, debug.Stack()))
@@ -130,8 +139,8 @@ func cmdCheck(args []string) (code int) {
 			}()
 			rule.Run(c, rr)
 		}()
-		out.Results = append(out.Results, rr)
 	}
+	wg.Wait()
 	if c.Prog != nil {
 		out.Analysed["ssa_module_functions"] = len(c.ModuleFunctions())
 	}
